@@ -38,9 +38,10 @@ func joinIdx(a, b idxFacts) idxFacts {
 }
 
 type idxClass struct {
-	T      *types.Named
-	I      *types.Var
-	tables map[*types.Var]bool
+	T        *types.Named
+	I        *types.Var
+	tables   map[*types.Var]bool
+	internal map[*ssa.Function]bool // unexported methods only methods of the class call
 }
 
 func fieldLoadOf(v ssa.Value) *types.Var {
@@ -116,7 +117,41 @@ func c08_9(c *core.Ctx, p *core.Prog) {
 				}
 			})
 		}
+		// internal helpers: unexported methods that only methods of the class call (`t.requestReset()`,
+		// `t.upgradeIndexType(…)`): they are not entered from outside, so the class invariant need not hold at their
+		// entry; they are analysed in the state of each call site instead
+		cl.internal = map[*ssa.Function]bool{}
+		isMethod := map[*ssa.Function]bool{}
 		for _, m := range methods {
+			isMethod[m] = true
+		}
+		for _, m := range methods {
+			if m.Object() == nil || m.Object().Exported() {
+				continue
+			}
+			inside, outside := 0, 0
+			for _, g := range fns {
+				for _, h := range core.WithClosures(g) {
+					core.EachCall(h, func(ci ssa.CallInstruction) {
+						if ci.Common().StaticCallee() == m {
+							if isMethod[g] && g != m {
+								inside++
+							} else if g != m {
+								outside++
+							}
+						}
+					})
+				}
+			}
+			if inside > 0 && outside == 0 {
+				cl.internal[m] = true
+			}
+		}
+		for _, m := range methods {
+			if cl.internal[m] && (indexUser[m] || idxStateWriter(m, cl)) {
+				c.OK(fmt.Sprintf("type=%s|fn=%s", cl.T.Obj().Name(), m.Name()), p.Pos(m.Pos()), core.FuncName(m), "internal helper: analysed in the state of each of its call sites")
+				continue
+			}
 			analyseIdxMethod(c, p, cl, m, indexUser)
 		}
 	}
@@ -215,103 +250,138 @@ func analyseIdxMethod(c *core.Ctx, p *core.Prog, cl *idxClass, fn *ssa.Function,
 		}
 		return st
 	}
-	infeasible := core.EnumInfeasible(fn)
-	in := map[*ssa.BasicBlock]idxFacts{fn.Blocks[0]: {0, 2}}
-	have := map[*ssa.BasicBlock]bool{fn.Blocks[0]: true}
 	type finding struct {
 		pos token.Pos
 		msg string
 		key string
 	}
 	var findings []finding
-	writes := false
-	for round := 0; round < 12; round++ {
-		changed := false
-		findings = findings[:0]
-		nSite := 0
-		for _, b := range fn.Blocks {
-			if !have[b] {
-				continue
+	// summarise: the state in which a method of the same type leaves, entered in state entry — the effect a call of
+	// a helper (`t.requestReset()`, `t.overflow(…)`) has on the index and the tables, computed with the same
+	// transfer functions; the helper's own uses are judged when the helper is analysed as a method of the class
+	var run func(f *ssa.Function, entry idxFacts, collect bool, depth int) (idxFacts, bool)
+	run = func(f *ssa.Function, entry idxFacts, collect bool, depth int) (idxFacts, bool) {
+		infeasible := core.EnumInfeasible(f)
+		in := map[*ssa.BasicBlock]idxFacts{f.Blocks[0]: entry}
+		have := map[*ssa.BasicBlock]bool{f.Blocks[0]: true}
+		writes := false
+		var exit idxFacts
+		haveExit := false
+		for round := 0; round < 12; round++ {
+			changed := false
+			if collect && depth == 0 {
+				findings = findings[:0]
 			}
-			st := in[b]
-			for _, ins := range b.Instrs {
-				switch x := ins.(type) {
-				case *ssa.Store:
-					fa, ok := x.Addr.(*ssa.FieldAddr)
-					if !ok || core.NamedOf(fa.X.Type()) != cl.T {
-						break
-					}
-					fv := core.FieldVar(fa)
-					if fv == cl.I {
-						writes = true
-						v := core.StripConv(x.Val)
-						switch {
-						case func() bool { k, ok := core.ConstInt(v); return ok && k == 0 }():
-							st.r = 0
-						case func() bool {
-							bo, ok := v.(*ssa.BinOp)
-							if !ok || bo.Op != token.SUB || !isLenOfTable(bo.X) {
-								return false
-							}
-							k, ok := core.ConstInt(bo.Y)
-							return ok && k >= 1
-						}():
-							st.r = 0
-						default:
-							st.r = 1
-						}
-					} else if cl.tables[fv] {
-						writes = true
-						if core.IsNilConst(x.Val) {
-							st.z = 1
-						} else {
-							st.z = 2
-						}
-					}
-				case *ssa.IndexAddr:
-					if f := fieldLoadOf(x.X); f != nil && cl.tables[f] && isI(x.Index) {
-						nSite++
-						if !(st.r == 0 && st.z == 0) {
-							findings = append(findings, finding{x.Pos(), fmt.Sprintf("%s[%s] is evaluated where %s may be out of range or the table nil (after an increment or before the clamp, with no dominating range test)", f.Name(), cl.I.Name(), cl.I.Name()), fmt.Sprintf("index#%d", nSite)})
-						}
-					}
-				case *ssa.Call:
-					callee := core.StaticCallee(x)
-					if callee != nil && indexUser[callee] && callee != fn {
-						nSite++
-						if !(st.r == 0 || st.z == 1) {
-							findings = append(findings, finding{x.Pos(), fmt.Sprintf("%s() indexes the tables with %s, but is called where %s may be out of range (e.g. right after the width search ran past the last width and before the clamp): index out of range panic", callee.Name(), cl.I.Name(), cl.I.Name()), fmt.Sprintf("call#%d", nSite)})
-						}
-					}
-				case *ssa.Return:
-					if writes && !(st.r == 0 || st.z == 1) {
-						findings = append(findings, finding{x.Pos(), fmt.Sprintf("%s returns with %s possibly out of range: the next method that indexes the tables panics", fn.Name(), cl.I.Name()), "return"})
-					}
-				}
-			}
-			iff := core.IfOf(b)
-			for si, s := range b.Succs {
-				if infeasible[core.Edge{From: b, To: s}] {
+			haveExit = false
+			nSite := 0
+			for _, b := range f.Blocks {
+				if !have[b] {
 					continue
 				}
-				ns := st
-				if iff != nil && len(b.Succs) == 2 {
-					ns = refine(st, iff.Cond, si == 0)
+				st := in[b]
+				for _, ins := range b.Instrs {
+					switch x := ins.(type) {
+					case *ssa.Store:
+						fa, ok := x.Addr.(*ssa.FieldAddr)
+						if !ok || core.NamedOf(fa.X.Type()) != cl.T {
+							break
+						}
+						fv := core.FieldVar(fa)
+						if fv == cl.I {
+							writes = true
+							v := core.StripConv(x.Val)
+							switch {
+							case func() bool { k, ok := core.ConstInt(v); return ok && k == 0 }():
+								st.r = 0
+							case func() bool {
+								bo, ok := v.(*ssa.BinOp)
+								if !ok || bo.Op != token.SUB || !isLenOfTable(bo.X) {
+									return false
+								}
+								k, ok := core.ConstInt(bo.Y)
+								return ok && k >= 1
+							}():
+								st.r = 0
+							default:
+								st.r = 1
+							}
+						} else if cl.tables[fv] {
+							writes = true
+							if core.IsNilConst(x.Val) {
+								st.z = 1
+							} else {
+								st.z = 2
+							}
+						}
+					case *ssa.IndexAddr:
+						if fl := fieldLoadOf(x.X); fl != nil && cl.tables[fl] && isI(x.Index) {
+							nSite++
+							if collect && !(st.r == 0 && st.z == 0) {
+								findings = append(findings, finding{x.Pos(), fmt.Sprintf("%s[%s] is evaluated where %s may be out of range or the table nil (after an increment or before the clamp, with no dominating range test)", fl.Name(), cl.I.Name(), cl.I.Name()), fmt.Sprintf("index#%d", nSite)})
+							}
+						}
+					case *ssa.Call:
+						callee := core.StaticCallee(x)
+						if callee != nil && cl.internal[callee] && callee != f && depth < 2 && len(callee.Blocks) > 0 {
+							// an internal helper: its uses and its effect, in this call's state
+							if ex, ok := run(callee, st, collect, depth+1); ok {
+								st = ex
+								if idxStateWriter(callee, cl) {
+									writes = true
+								}
+							}
+							break
+						}
+						if callee != nil && indexUser[callee] && callee != f {
+							nSite++
+							if collect && !(st.r == 0 || st.z == 1) {
+								findings = append(findings, finding{x.Pos(), fmt.Sprintf("%s() indexes the tables with %s, but is called where %s may be out of range (e.g. right after the width search ran past the last width and before the clamp): index out of range panic", callee.Name(), cl.I.Name(), cl.I.Name()), fmt.Sprintf("call#%d", nSite)})
+							}
+						}
+						// a helper of the same type that changes the index or the tables: its effect
+						if callee != nil && callee != f && depth < 2 && len(callee.Blocks) > 0 && callee.Signature.Recv() != nil && core.NamedOf(callee.Signature.Recv().Type()) == cl.T && idxStateWriter(callee, cl) {
+							if ex, ok := run(callee, st, false, depth+1); ok {
+								st = ex
+								writes = true
+							}
+						}
+					case *ssa.Return:
+						if collect && depth == 0 && writes && !(st.r == 0 || st.z == 1) {
+							findings = append(findings, finding{x.Pos(), fmt.Sprintf("%s returns with %s possibly out of range: the next method that indexes the tables panics", f.Name(), cl.I.Name()), "return"})
+						}
+						if !haveExit {
+							exit, haveExit = st, true
+						} else {
+							exit = joinIdx(exit, st)
+						}
+					}
 				}
-				if !have[s] {
-					have[s] = true
-					in[s] = ns
-					changed = true
-				} else if j := joinIdx(in[s], ns); j != in[s] {
-					in[s] = j
-					changed = true
+				iff := core.IfOf(b)
+				for si, sb := range b.Succs {
+					if infeasible[core.Edge{From: b, To: sb}] {
+						continue
+					}
+					ns := st
+					if iff != nil && len(b.Succs) == 2 {
+						ns = refine(st, iff.Cond, si == 0)
+					}
+					if !have[sb] {
+						have[sb] = true
+						in[sb] = ns
+						changed = true
+					} else if j := joinIdx(in[sb], ns); j != in[sb] {
+						in[sb] = j
+						changed = true
+					}
 				}
 			}
+			if !changed {
+				break
+			}
 		}
-		if !changed {
-			break
-		}
+		return exit, haveExit
 	}
+	run(fn, idxFacts{0, 2}, true, 0)
 	key := fmt.Sprintf("type=%s|fn=%s", cl.T.Obj().Name(), fn.Name())
 	if len(findings) == 0 {
 		c.OK(key, p.Pos(fn.Pos()), core.FuncName(fn), fmt.Sprintf("every use of %s as an index is in range and the invariant holds at every return", cl.I.Name()))
@@ -325,4 +395,19 @@ func init() {
 	register("C08", &core.Rule{ID: "C08.9", Title: "index fields stay in range: every table[index] and every return of the index state machine is under the range invariant", Mod: core.ModRoot, Floor: 5, Run: c08_9})
 	register("C13", &core.Rule{ID: "C13.8", Title: "the index-width state machine keeps its index in range on every path", Mod: core.ModRoot, Floor: 5, Run: c08_9})
 	register("C04", &core.Rule{ID: "C04.9", Title: "the index-width state machine keeps its index in range on every path (schema evolution cannot crash the producer)", Mod: core.ModRoot, Floor: 5, Run: c08_9})
+}
+
+// idxStateWriter: f stores to the index field or to one of the tables of the class.
+func idxStateWriter(f *ssa.Function, cl *idxClass) bool {
+	w := false
+	core.EachInstr(f, func(i ssa.Instruction) {
+		if st, ok := i.(*ssa.Store); ok {
+			if fa, ok := st.Addr.(*ssa.FieldAddr); ok && core.NamedOf(fa.X.Type()) == cl.T {
+				if fv := core.FieldVar(fa); fv == cl.I || cl.tables[fv] {
+					w = true
+				}
+			}
+		}
+	})
+	return w
 }
